@@ -30,6 +30,8 @@ type state struct {
 	// route: how the handle came to have len < cap (0: len == cap): 'M' Malloc rounded up, 'A'
 	// Append left spare capacity, 'R' shrinking Realloc, 'G' growing Realloc rounded up, 'X' caller reslice
 	route [maxHandles]byte
+	// capacities of the buffers given back and not handed out again, most recent last
+	graveCaps []int
 }
 
 var routeName = map[byte]string{'M': "Malloc rounded up", 'A': "Append left spare capacity", 'R': "shrinking Realloc", 'G': "growing Realloc left spare capacity", 'X': "caller reslice"}
@@ -82,6 +84,9 @@ func succOps(c *acfg, st *state) []op {
 		for _, s := range c.Sizes {
 			out = append(out, op{K: 'M', H: free, N: s})
 		}
+		if c.Ext {
+			out = append(out, relMallocs(c, free, st.graveCaps)...)
+		}
 	}
 	for h, l := range st.live {
 		if !l {
@@ -121,6 +126,7 @@ type searcher struct {
 	deadline time.Time
 	stopped  bool
 	reported map[string]bool
+	probed   map[int]bool       // capacities the class-invariant probe has been run for
 	shared   map[[16]byte]uint8 // levels 0..split
 	mine     map[[16]byte]uint8 // seen by this worker below the split
 }
@@ -173,6 +179,9 @@ func (s *searcher) expand(st *state, depth int, account bool, seen map[[16]byte]
 				first = false
 				continue
 			}
+			if account {
+				s.classInvariant(prog, r)
+			}
 			isNew := false
 			if _, ok := s.shared[r.key]; !ok {
 				// merge only with a state that was (or will be) expanded from the same or a
@@ -181,7 +190,7 @@ func (s *searcher) expand(st *state, depth int, account bool, seen map[[16]byte]
 				if d0, ok := seen[r.key]; !ok || uint8(depth) < d0 {
 					seen[r.key] = uint8(depth)
 					isNew = !ok
-					*next = append(*next, &state{prog: prog, miss: r.choices, live: r.live, lens: r.lens, caps: r.caps, route: nextRoute(st, o, r.lens, r.caps)})
+					*next = append(*next, &state{prog: prog, miss: r.choices, live: r.live, lens: r.lens, caps: r.caps, route: nextRoute(st, o, r.lens, r.caps), graveCaps: r.graveCaps})
 				}
 			}
 			if account {
@@ -245,7 +254,7 @@ func (s *searcher) level(front []*state, depth int, account bool, seen map[[16]b
 
 // search runs the BFS for one configuration up to maxDepth operations.
 func search(c *acfg, maxDepth, split int, sh *vkit.Shard, p *vkit.Part, deadline time.Time) {
-	s := &searcher{c: c, p: p, deadline: deadline, shared: map[[16]byte]uint8{}, mine: map[[16]byte]uint8{}, reported: map[string]bool{}}
+	s := &searcher{c: c, p: p, deadline: deadline, shared: map[[16]byte]uint8{}, mine: map[[16]byte]uint8{}, reported: map[string]bool{}, probed: map[int]bool{}}
 	owner := sh.Mine()
 	root := &state{}
 	r := execute(c, nil, nil, false)
